@@ -8,6 +8,8 @@
 #include "gen_text.h"
 #include "gen_scale.h"
 #include "ambient.h"
+#include <cstdlib>
+#include <optional>
 
 using vrt::Rng;
 using vrt::sfmt;
@@ -101,7 +103,10 @@ static bool has_high(const S &s)
 }
 
 // ---------------------------------------------------------------- split
-static void split_case(const vrt::Box<ST::string> &st, const S &s, const S &sep, size_t max, bool ci)
+// forms: which overloads get the call; held: the separator as the caller holds it (same bytes as sep, NUL-terminated) when the caller
+// manages that storage itself, otherwise an exact-size copy is made here
+enum { SF_STR = 1, SF_CSTR = 2, SF_CHAR8 = 4, SF_CHAR = 8, SF_ALL = 15 };
+static void split_case(const vrt::Box<ST::string> &st, const S &s, const S &sep, size_t max, bool ci, unsigned forms = SF_ALL, const char *held = nullptr)
 {
     ST::case_sensitivity_t cs = ci ? ST::case_insensitive : ST::case_sensitive;
     const std::vector<S> want = ref::split(s, sep, max, ci);
@@ -133,22 +138,30 @@ static void split_case(const vrt::Box<ST::string> &st, const S &s, const S &sep,
                 vrt::violation(sfmt("C09:split:%s:length-not-conserved", form), what);
         }
     };
-    vrt::Box<ST::string> ssep(vrt::mk(sep));
-    Outcome o = call_vec("split", what + " form=ST::string", [&] { return st->split(*ssep, max, cs); }, got);
-    judge("ST::string", o, false);
-    if (max == SMAX && !ci) {
-        o = call_vec("split", what + " form=ST::string/default-max", [&] { return st->split(*ssep); }, got);
+    Outcome o;
+    if (forms & SF_STR) {
+        vrt::Box<ST::string> ssep(vrt::mk(sep));
+        o = call_vec("split", what + " form=ST::string", [&] { return st->split(*ssep, max, cs); }, got);
         judge("ST::string", o, false);
+        if (max == SMAX && !ci) {
+            o = call_vec("split", what + " form=ST::string/default-max", [&] { return st->split(*ssep); }, got);
+            judge("ST::string", o, false);
+        }
     }
-    if (sep.find('\0') == S::npos) {
-        vrt::Exact<char> c(sep.data(), sep.size(), true);
-        o = call_vec("split", what + " form=const char*", [&] { return st->split(c.data(), max, cs); }, got);
-        judge("cstr", o, has_high(sep));
-        o = call_vec("split", what + " form=const char8_t*", [&] { return st->split(reinterpret_cast<const char8_t *>(c.data()), max, cs); }, got);
-        judge("char8_t", o, has_high(sep));
+    if ((forms & (SF_CSTR | SF_CHAR8)) && sep.find('\0') == S::npos) {
+        std::optional<vrt::Exact<char>> c;
+        if (!held) { c.emplace(sep.data(), sep.size(), true); held = c->data(); }
+        if (forms & SF_CSTR) {
+            o = call_vec("split", what + " form=const char*", [&] { return st->split(held, max, cs); }, got);
+            judge("cstr", o, has_high(sep));
+        }
+        if (forms & SF_CHAR8) {
+            o = call_vec("split", what + " form=const char8_t*", [&] { return st->split(reinterpret_cast<const char8_t *>(held), max, cs); }, got);
+            judge("char8_t", o, has_high(sep));
+        }
         vrt::count("split.form.cstr");
     }
-    if (sep.size() == 1 && sep[0] > 0 && static_cast<unsigned char>(sep[0]) < 0x80) {
+    if ((forms & SF_CHAR) && sep.size() == 1 && sep[0] > 0 && static_cast<unsigned char>(sep[0]) < 0x80) {
         o = call_vec("split", what + " form=char", [&] { return st->split(sep[0], max, cs); }, got);
         judge("char", o, false);
         vrt::count("split.form.char");
@@ -164,7 +177,11 @@ static void split_case(const vrt::Box<ST::string> &st, const S &s, const S &sep,
 }
 
 // ---------------------------------------------------------------- replace
-static void replace_case(const vrt::Box<ST::string> &st, const S &s, const S &from, const S &to, bool ci)
+// forms: which groups of overloads get the call; held_from / held_to: pattern and replacement as the caller holds them (NUL-terminated,
+// same bytes as from / to) when the caller manages that storage itself
+enum { RF_STR = 1, RF_CSTR = 2, RF_STR_CSTR = 4, RF_CSTR_STR = 8, RF_DEPRECATED = 16, RF_ALL = 31 };
+static void replace_case(const vrt::Box<ST::string> &st, const S &s, const S &from, const S &to, bool ci, unsigned forms = RF_ALL,
+                         const char *held_from = nullptr, const char *held_to = nullptr)
 {
     ST::case_sensitivity_t cs = ci ? ST::case_insensitive : ST::case_sensitive;
     size_t k = 0;
@@ -193,59 +210,63 @@ static void replace_case(const vrt::Box<ST::string> &st, const S &s, const S &fr
                            : sfmt("%s got: %s; want: %s; first difference at result offset %zu", what.c_str(), scale::brief(g, fd).c_str(), scale::brief(want, fd).c_str(), fd));
         }
     };
-    // poison differential: bytes that differ between two runs with different
-    // fresh-memory fill were never written (the two scans of replace disagree)
-    vrt::alloc::set_poison(0xA5);
-    Outcome o1 = call_str("replace", what + " form=str,str", [&] { return st->replace(*sfrom, *sto, cs); }, got);
-    vrt::alloc::set_poison(0x5A);
-    Outcome o2 = call_str("replace", what + " form=str,str", [&] { return st->replace(*sfrom, *sto, cs); }, got2);
-    vrt::alloc::set_poison(-1);
-    if (o1 == OK && o2 == OK && got != got2)
-        vrt::violation("C09:replace:unwritten-result-bytes", sfmt("%s run1=%s run2=%s", what.c_str(), show(got).c_str(), show(got2).c_str()));
-    if (o1 != o2)
-        vrt::violation("C09:replace:nondeterministic-outcome", what);
-    judge("str,str", o1, result_invalid, got);
-    if (to == from) {
-        // the same object as pattern and as replacement (case-insensitively this still rewrites differently-cased occurrences),
-        // and the subject itself in either role
-        Outcome o = call_str("replace", what + " form=same object twice", [&] { return st->replace(*sfrom, *sfrom, cs); }, got);
-        judge("same-object-twice", o, result_invalid, got);
-        vrt::count("replace.same_object_twice");
-    }
-    if (from == s) {
-        Outcome o = call_str("replace", what + " form=subject as pattern", [&] { return st->replace(*st, *sto, cs); }, got);
-        judge("subject-as-pattern", o, result_invalid, got);
-    }
-    if (to == s) {
-        Outcome o = call_str("replace", what + " form=subject as replacement", [&] { return st->replace(*sfrom, *st, cs); }, got);
-        judge("subject-as-replacement", o, result_invalid, got);
+    if (forms & RF_STR) {
+        // poison differential: bytes that differ between two runs with different
+        // fresh-memory fill were never written (the two scans of replace disagree)
+        vrt::alloc::set_poison(0xA5);
+        Outcome o1 = call_str("replace", what + " form=str,str", [&] { return st->replace(*sfrom, *sto, cs); }, got);
+        vrt::alloc::set_poison(0x5A);
+        Outcome o2 = call_str("replace", what + " form=str,str", [&] { return st->replace(*sfrom, *sto, cs); }, got2);
+        vrt::alloc::set_poison(-1);
+        if (o1 == OK && o2 == OK && got != got2)
+            vrt::violation("C09:replace:unwritten-result-bytes", sfmt("%s run1=%s run2=%s", what.c_str(), show(got).c_str(), show(got2).c_str()));
+        if (o1 != o2)
+            vrt::violation("C09:replace:nondeterministic-outcome", what);
+        judge("str,str", o1, result_invalid, got);
+        if (to == from) {
+            // the same object as pattern and as replacement (case-insensitively this still rewrites differently-cased occurrences),
+            // and the subject itself in either role
+            Outcome o = call_str("replace", what + " form=same object twice", [&] { return st->replace(*sfrom, *sfrom, cs); }, got);
+            judge("same-object-twice", o, result_invalid, got);
+            vrt::count("replace.same_object_twice");
+        }
+        if (from == s) {
+            Outcome o = call_str("replace", what + " form=subject as pattern", [&] { return st->replace(*st, *sto, cs); }, got);
+            judge("subject-as-pattern", o, result_invalid, got);
+        }
+        if (to == s) {
+            Outcome o = call_str("replace", what + " form=subject as replacement", [&] { return st->replace(*sfrom, *st, cs); }, got);
+            judge("subject-as-replacement", o, result_invalid, got);
+        }
     }
     const bool from_c = from.find('\0') == S::npos, to_c = to.find('\0') == S::npos;
-    vrt::Exact<char> cf(from.data(), from.size(), true), ct(to.data(), to.size(), true);
+    std::optional<vrt::Exact<char>> cf, ct;
+    if (!held_from) { cf.emplace(from.data(), from.size(), true); held_from = cf->data(); }
+    if (!held_to) { ct.emplace(to.data(), to.size(), true); held_to = ct->data(); }
+    const char8_t *from8 = reinterpret_cast<const char8_t *>(held_from), *to8 = reinterpret_cast<const char8_t *>(held_to);
     // const char* forms validate their arguments (default mode: check_validity)
-    if (from_c && to_c) {
-        Outcome o = call_str("replace", what + " form=cstr,cstr", [&] { return st->replace(cf.data(), ct.data(), cs); }, got);
+    if ((forms & RF_CSTR) && from_c && to_c) {
+        Outcome o = call_str("replace", what + " form=cstr,cstr", [&] { return st->replace(held_from, held_to, cs); }, got);
         judge("cstr,cstr", o, result_invalid || !ref::utf8_ok(from) || !ref::utf8_ok(to), got);
-        o = call_str("replace", what + " form=char8_t,char8_t", [&] {
-            return st->replace(reinterpret_cast<const char8_t *>(cf.data()), reinterpret_cast<const char8_t *>(ct.data()), cs); }, got);
+        o = call_str("replace", what + " form=char8_t,char8_t", [&] { return st->replace(from8, to8, cs); }, got);
         judge("char8_t,char8_t", o, result_invalid || !ref::utf8_ok(from) || !ref::utf8_ok(to), got);
-        o = call_str("replace", what + " form=cstr,cstr,assume_valid", [&] { return st->replace(cf.data(), ct.data(), cs, ST::assume_valid); }, got);
+        o = call_str("replace", what + " form=cstr,cstr,assume_valid", [&] { return st->replace(held_from, held_to, cs, ST::assume_valid); }, got);
         judge("cstr,cstr,assume_valid", o, result_invalid, got);
         vrt::count("replace.form.cstr");
     }
-    if (to_c) {
-        Outcome o = call_str("replace", what + " form=str,cstr", [&] { return st->replace(*sfrom, ct.data(), cs); }, got);
+    if ((forms & RF_STR_CSTR) && to_c) {
+        Outcome o = call_str("replace", what + " form=str,cstr", [&] { return st->replace(*sfrom, held_to, cs); }, got);
         judge("str,cstr", o, result_invalid || !ref::utf8_ok(to), got);
-        o = call_str("replace", what + " form=str,char8_t", [&] { return st->replace(*sfrom, reinterpret_cast<const char8_t *>(ct.data()), cs); }, got);
+        o = call_str("replace", what + " form=str,char8_t", [&] { return st->replace(*sfrom, to8, cs); }, got);
         judge("str,char8_t", o, result_invalid || !ref::utf8_ok(to), got);
     }
-    if (from_c) {
-        Outcome o = call_str("replace", what + " form=cstr,str", [&] { return st->replace(cf.data(), *sto, cs); }, got);
+    if ((forms & RF_CSTR_STR) && from_c) {
+        Outcome o = call_str("replace", what + " form=cstr,str", [&] { return st->replace(held_from, *sto, cs); }, got);
         judge("cstr,str", o, result_invalid || !ref::utf8_ok(from), got);
-        o = call_str("replace", what + " form=char8_t,str", [&] { return st->replace(reinterpret_cast<const char8_t *>(cf.data()), *sto, cs); }, got);
+        o = call_str("replace", what + " form=char8_t,str", [&] { return st->replace(from8, *sto, cs); }, got);
         judge("char8_t,str", o, result_invalid || !ref::utf8_ok(from), got);
     }
-    {
+    if (forms & RF_DEPRECATED) {
         // deprecated overload that takes (and ignores) a validation mode
         Outcome o = call_str("replace", what + " form=str,str,validation [deprecated]", [&] { return st->replace(*sfrom, *sto, cs, ST::assume_valid); }, got);
         judge("str,str,validation", o, result_invalid, got);
@@ -263,15 +284,17 @@ static void replace_case(const vrt::Box<ST::string> &st, const S &s, const S &fr
 }
 
 // ---------------------------------------------------------------- tokenize
-static void tokenize_case(const vrt::Box<ST::string> &st, const S &s, const S *delims)
+// held: the delimiters as the caller holds them (same bytes as *delims, NUL-terminated) when the caller manages that storage itself
+static void tokenize_case(const vrt::Box<ST::string> &st, const S &s, const S *delims, const char *held = nullptr)
 {
     S set = delims ? *delims : S(" \t\r\n");
     std::string what = sfmt("subject=%s delims=%s%s", show(s).c_str(), show(set).c_str(), delims ? "" : "(default)");
     if (s.size() > 96) what += " [subject " + scale::brief(s) + "]";
     const std::vector<S> want = ref::tokenize(s, set);
     std::vector<S> got;
-    vrt::Exact<char> c(set.data(), set.size(), true);
-    Outcome o = call_vec("tokenize", what, [&] { return delims ? st->tokenize(c.data()) : st->tokenize(); }, got);
+    std::optional<vrt::Exact<char>> c;
+    if (!held) { c.emplace(set.data(), set.size(), true); held = c->data(); }
+    Outcome o = call_vec("tokenize", what, [&] { return delims ? st->tokenize(held) : st->tokenize(); }, got);
     if (o == UNICODE_ERROR) vrt::violation("C09:tokenize:unexpected-unicode_error", what);
     else if (o == OK && got != want)
         vrt::violation("C09:tokenize:wrong-tokens", sfmt("%s got=%s want=%s%s", what.c_str(), showv(got).c_str(), showv(want).c_str(),
@@ -355,6 +378,71 @@ static bool alias_of_member(Rng &r, const S &set, char &out)
         if (c != 0 && !ref::in_set(set, static_cast<char>(c))) { out = static_cast<char>(c); return true; }
     }
     return false;
+}
+
+// ---------------------------------------------------------------- helpers of the same_storage / soak / alignment phases
+// Caller-side storage: n bytes and a NUL in a heap block that ends right behind the NUL and whose data starts at an address congruent
+// to `align` modulo 16 (the bytes in front of it, if any, belong to the block and repeat the data, so an under-read changes a
+// result).  The content is rewritten in place: same address, same length, other bytes.
+struct Placed {
+    char *base, *p;
+    size_t n, lead;
+    Placed(size_t len, unsigned align) : n(len), lead(align % 16)
+    {
+        void *m = nullptr;
+        if (posix_memalign(&m, 16, lead + len + 1) != 0 || !m) { fprintf(stderr, "vrt: out of memory\n"); _exit(98); }
+        base = static_cast<char *>(m);
+        p = base + lead;
+        memset(base, 0x80, lead);
+        p[len] = '\0';
+    }
+    Placed(const Placed &) = delete;
+    Placed &operator=(const Placed &) = delete;
+    ~Placed() { free(base); }
+    const char *write(const S &s)
+    {
+        memcpy(p, s.data(), n);
+        for (size_t i = 0; i < lead && n; ++i) base[lead - 1 - i] = s[n - 1 - i % n];
+        return p;
+    }
+};
+static bool is_letter(char c) { return (c >= 'a' && c <= 'z') || (c >= 'A' && c <= 'Z'); }
+static char other_case(char c) { return is_letter(c) ? static_cast<char>(c ^ 0x20) : c; }
+// a byte of the same kind (letter / other) as c that differs from it by more than letter case
+static char different_byte(Rng &r, char c)
+{
+    if (is_letter(c)) return static_cast<char>(((c & 0x20) ? 'a' : 'A') + (ref::fold(static_cast<unsigned char>(c)) - 'a' + 1 + r.below(25)) % 26);
+    static const char other[] = "-_#+";
+    for (;;) { const char d = other[r.below(4)]; if (d != c) return d; }
+}
+enum { NM_HARD, NM_CASE, NM_CASE_THEN_HARD, NM_KINDS };
+// a copy of sep that differs from it at index j: by more than letter case (NM_HARD), by letter case only (NM_CASE), or by letter case at
+// j and by more than case at a later index (NM_CASE_THEN_HARD); `mixed`: other letters change case as well.  false: not possible at j.
+static bool near_miss(Rng &r, const S &sep, size_t j, unsigned kind, bool mixed, S &out)
+{
+    out = sep;
+    size_t j2 = sep.size();
+    if (kind == NM_HARD) out[j] = different_byte(r, sep[j]);
+    else {
+        if (!is_letter(sep[j])) return false;
+        out[j] = other_case(sep[j]);
+        if (kind == NM_CASE_THEN_HARD) {
+            if (j + 1 >= sep.size()) return false;
+            j2 = r.chance(1, 3) ? sep.size() - 1 : j + 1 + r.below(sep.size() - j - 1);
+            out[j2] = different_byte(r, sep[j2]);
+        }
+    }
+    if (mixed)
+        for (size_t k = 0; k < sep.size(); ++k)
+            if (k != j && k != j2 && r.chance(1, 4)) out[k] = other_case(out[k]);
+    return true;
+}
+// the letters of n in random case
+static S random_case(Rng &r, const S &n)
+{
+    S o(n);
+    for (auto &c : o) if (r.chance(1, 2)) c = other_case(c);
+    return o;
 }
 
 static void body()
@@ -755,6 +843,406 @@ static void body()
             if (subject_len >= 65536) vrt::count("scale.subject>=64KiB");
             if (subject_len >= 262144) vrt::count("scale.subject>=256KiB");
             if (subject_len >= 1u << 20) vrt::count("scale.subject>=1MiB");
+        });
+    }
+
+    // ---- same_storage: 3..6 texts of IDENTICAL size, one after the other in the same storage.  The object holding the text is destroyed
+    // and its successor built right away (forced re-issue of the object block and of the heap block, see rt/vrt_st.h); separator,
+    // delimiter set, pattern and replacement sit in caller-side blocks that are rewritten in place (two separators of the same length
+    // with the same first and last byte, two delimiter sets of the same length ...).  The texts share their first and last 16 bytes and
+    // differ in between in where - and how many - separators, delimiter runs and pattern occurrences they hold.  Every text goes
+    // through split (each form on its own), tokenize and replace in an order that changes from text to text; the last call on one
+    // text is repeated, with the very same argument storage, as the first call on its successor; calls that throw (a pattern that is
+    // not UTF-8, a text with a stray byte through the validating forms) come in between.
+    {
+        const double sc = std::min(1.0, vrt::opt().scale);
+        vrt::require("same_storage.cases", static_cast<uint64_t>(200 * sc));
+        vrt::require("same_storage.successors", static_cast<uint64_t>(600 * sc));
+        vrt::require("same_storage.object_at_the_same_address", static_cast<uint64_t>(400 * sc));
+        vrt::require("same_storage.heap_block_at_the_same_address", static_cast<uint64_t>(400 * sc));
+        vrt::require("same_storage.caller_block_rewritten_in_place", static_cast<uint64_t>(2000 * sc));
+        vrt::require("same_storage.last_call_repeated_first_on_successor", static_cast<uint64_t>(600 * sc));
+        vrt::require("same_storage.throwing_call_in_between", static_cast<uint64_t>(300 * sc));
+        static const size_t sizes[] = {20, 40, 64, 100, 256, 300, 1024, 1500, 4096, 5000, 16384, 70000};
+        const size_t NS = sizeof(sizes) / sizeof(sizes[0]);
+        vrt::phase("same_storage", vrt::tier_count(NS * 32, NS * 640), [&](uint64_t i, Rng &r) {
+            const size_t N = sizes[i % NS];
+            const size_t shared = std::min<size_t>(16, N / 4), W = N - 2 * shared;
+            const size_t ncontents = 3 + r.below(4);
+            const size_t mark0 = vrt::cur_mark();
+            static const char *const alphas[] = {"ab", "aAbB", ":=", "iIjJ", ",;", "Kk-"};
+            static const char *const delimpairs[][2] = {{",;", " \t"}, {" ", ","}, {"|/", ":="}, {" \t\r\n", ",;:="}, {"-_.", ", ;"}};
+            const S al = r.pick(alphas);
+            const size_t dp = r.below(sizeof(delimpairs) / sizeof(delimpairs[0]));
+            const S dA = delimpairs[dp][0], dB = delimpairs[dp][1];
+            Background bg;
+            bg.utf8_pairs = r.chance(1, 3);
+            bg.alphabet = bg.utf8_pairs ? S("x\xc3\xa9") : r.chance(1, 2) ? S("xyz") : S("x");
+            size_t L = r.chance(1, 2) ? 1 : r.chance(2, 3) ? 2 + r.below(6) : 8 + r.below(17);
+            L = std::min(L, std::max<size_t>(1, W / 8));
+            const S sep = gen::bytes_over(r, L, al);
+            S sep2;
+            for (int tries = 0;; ++tries) {
+                sep2 = sep;
+                if (L >= 3 && tries < 50) { for (size_t k = 1; k + 1 < L; ++k) sep2[k] = al[r.below(al.size())]; }
+                else sep2 = gen::bytes_over(r, L, al);
+                if (ref::folded(sep2) != ref::folded(sep)) break;
+                if (tries > 200) { sep2 = S(L, '|'); break; }
+            }
+            const size_t TL = r.chance(1, 3) ? L : r.below(2 * L + 3);
+            const S to1 = gen::bytes_over(r, TL, "#-+"), to2 = r.chance(1, 3) ? S(TL, '#') : gen::bytes_over(r, TL, "#-+");
+            const size_t M = (W - L) / (L + 1) + 1, nslots = std::min<size_t>(10, M);
+            std::vector<size_t> slot;
+            while (slot.size() < nslots) {
+                const size_t v = r.below(M);
+                if (std::find(slot.begin(), slot.end(), v) == slot.end()) slot.push_back(v);
+            }
+            std::sort(slot.begin(), slot.end());
+            for (size_t &v : slot) v = shared + v * (L + 1);
+            const bool exact = r.chance(2, 3), stray_bytes = r.chance(1, 4);
+            const S head = gen::bytes_over(r, shared, "xy"), tail = gen::bytes_over(r, shared, "xy");
+            Placed held_sep(L, static_cast<unsigned>(r.below(16))), held_delims(dA.size(), static_cast<unsigned>(r.below(16))), held_to(TL, static_cast<unsigned>(r.below(16)));
+            std::optional<vrt::Box<ST::string>> st;
+            std::vector<unsigned char> occ(nslots, 0), prev_occ;
+            int repeat_op = -1;
+            unsigned repeat_form = 0;
+            size_t repeat_max = SMAX;
+            bool repeat_ci = false;
+            S s;
+            // one call: 0 split(sep) 1 split(sep2) 2 tokenize(dA) 3 tokenize(dB) 4 replace(sep -> to1) 5 replace(sep2 -> to2) 6 replace(sep -> to2)
+            auto one = [&](int op, unsigned form, size_t max, bool ci) {
+                switch (op) {
+                case 0: split_case(*st, s, sep, max, ci, form, held_sep.write(sep)); break;
+                case 1: split_case(*st, s, sep2, max, ci, form, held_sep.write(sep2)); break;
+                case 2: tokenize_case(*st, s, &dA, held_delims.write(dA)); break;
+                case 3: tokenize_case(*st, s, &dB, held_delims.write(dB)); break;
+                case 4: replace_case(*st, s, sep, to1, ci, form, held_sep.write(sep), held_to.write(to1)); break;
+                case 5: replace_case(*st, s, sep2, to2, ci, form, held_sep.write(sep2), held_to.write(to2)); break;
+                default: replace_case(*st, s, sep, to2, ci, form, held_sep.write(sep), held_to.write(to2)); break;
+                }
+                vrt::count("same_storage.caller_block_rewritten_in_place");
+            };
+            for (size_t c = 0; c < ncontents; ++c) {
+                prev_occ = occ;
+                for (int tries = 0; tries < 20 && (occ == prev_occ || tries == 0); ++tries) {
+                    if (c > 0 && r.chance(1, 3)) {          // the previous text plus one more separator in an earlier / later place
+                        occ = prev_occ;
+                        const size_t k = r.below(nslots);
+                        occ[k] = occ[k] == 1 ? 0 : 1;
+                    } else for (auto &x : occ) x = r.chance(1, 2) ? 0 : static_cast<unsigned char>(1 + r.below(4));
+                }
+                S mid = make_background(r, W, bg);
+                s = head + mid + tail;
+                for (size_t k = 0; k < nslots; ++k) {
+                    if (!occ[k]) continue;
+                    S piece = occ[k] == 1 ? sep : occ[k] == 2 ? sep2 : gen::bytes_over(r, L, occ[k] == 3 ? dA : dB);
+                    if (!exact && occ[k] <= 2) piece = random_case(r, piece);
+                    plant_in(s, slot[k], piece, bg);
+                }
+                const bool stray = stray_bytes && r.chance(1, 2);
+                if (stray) s[shared + r.below(W)] = '\xe9';            // not UTF-8: the validating forms may reject this text
+                if (st) {
+                    const uintptr_t prev_obj = reinterpret_cast<uintptr_t>(st->p), prev_data = reinterpret_cast<uintptr_t>((*st)->c_str());
+                    vrt::placement_force_parks() = 4;
+                    st.reset();
+                    st.emplace(vrt::mk(s));
+                    vrt::placement_force_parks() = 0;
+                    vrt::count("same_storage.successors");
+                    if (reinterpret_cast<uintptr_t>(st->p) == prev_obj) vrt::count("same_storage.object_at_the_same_address");
+                    if (reinterpret_cast<uintptr_t>((*st)->c_str()) == prev_data) vrt::count("same_storage.heap_block_at_the_same_address");
+                } else st.emplace(vrt::mk(s));
+                vrt::cur_mark() = mark0;
+                vrt::cur_rewind();
+                vrt::cur_printf("same_storage: text %zu of %zu, %s sep=%s sep2=%s\n", c, ncontents, scale::brief(s).c_str(), show(sep).c_str(), show(sep2).c_str());
+                vrt::cur_mark_here();
+                if (repeat_op >= 0) {
+                    one(repeat_op, repeat_form, repeat_max, repeat_ci);
+                    vrt::count("same_storage.last_call_repeated_first_on_successor");
+                }
+                std::vector<int> ops = {0, 1, 2, 3, 4, 5, 6, 7};
+                for (size_t k = ops.size(); k > 1; --k) std::swap(ops[k - 1], ops[r.below(k)]);
+                for (int op : ops) {
+                    const bool ci = r.chance(1, 3);
+                    if (op == 7) {
+                        // calls that throw: a pattern that is not UTF-8 through the validating form; a separator with a non-ASCII character
+                        // (the pieces are then validated)
+                        replace_case(*st, s, "\xff", to1, ci, RF_CSTR);
+                        split_case(*st, s, "\xc3\xa9", SMAX, ci, SF_CSTR | SF_CHAR8);
+                        vrt::count("same_storage.throwing_call_in_between");
+                    } else if (op <= 1) {
+                        unsigned forms[4] = {SF_STR, SF_CSTR, SF_CHAR8, SF_CHAR};
+                        for (size_t k = 4; k > 1; --k) std::swap(forms[k - 1], forms[r.below(k)]);
+                        const size_t maxes[] = {SMAX, SMAX, 0, 1, 2, nslots};
+                        for (unsigned f : forms) one(op, f, r.pick(maxes), ci);
+                    } else if (op <= 3) one(op, 0, 0, false);
+                    else {
+                        unsigned forms[4] = {RF_STR, RF_CSTR, RF_STR_CSTR, RF_CSTR_STR};
+                        for (size_t k = 4; k > 1; --k) std::swap(forms[k - 1], forms[r.below(k)]);
+                        one(op, forms[0], 0, ci);
+                        one(op, forms[1], 0, ci);
+                    }
+                }
+                if (c + 1 < ncontents) {
+                    repeat_op = static_cast<int>(r.below(7));
+                    repeat_ci = r.chance(1, 4);
+                    repeat_max = r.chance(1, 2) ? SMAX : r.below(4);
+                    if (repeat_op <= 1) { const unsigned f[] = {SF_STR, SF_CSTR, SF_CHAR8, static_cast<unsigned>(L == 1 ? SF_CHAR : SF_CSTR)}; repeat_form = r.pick(f); }
+                    else { const unsigned f[] = {RF_STR, RF_CSTR, RF_STR_CSTR, RF_CSTR_STR}; repeat_form = r.pick(f); }
+                    one(repeat_op, repeat_form, repeat_max, repeat_ci);
+                }
+                if (vrt::str_of(**st) != s) vrt::violation("C09:split:subject-changed", scale::brief(s));
+                if (stray) vrt::count("same_storage.texts_with_a_stray_byte");
+            }
+            st.reset();
+            vrt::count("same_storage.cases");
+            if (N >= 256) vrt::count("same_storage.subject>=256");
+            if (vrt::want_sample("same_storage") && N >= 256)
+                vrt::sample("same_storage", sfmt("%zu texts of %zu bytes one after the other in the same storage (same first and last %zu bytes), separators %s / %s, delimiter sets %s / %s and replacements of %zu bytes in caller blocks rewritten in place",
+                                                 ncontents, N, shared, show(sep).c_str(), show(sep2).c_str(), show(dA).c_str(), show(dB).c_str(), TL));
+        });
+    }
+
+    // ---- soak / soak_replace: more than 2^17 consecutive tokenize calls with 75000 split calls in between - and, in a second phase, 75000
+    // replace calls - inside ONE case (one process, one thread), on texts of 16..64 (tokenize) and 40..300 bytes, so that state kept
+    // between calls (a delimiter table stamped with a call counter, a skip table with a generation number, a counter that enables a
+    // fast path after N calls, a memo of the previous argument) goes through its whole cycle.  Delimiter sets and separators come from
+    // small core sets nearly always; a few calls - most of them early in the case - use a RARE byte, which then stays out of every
+    // delimiter set / separator for tens of thousands of calls while the texts keep containing it (all texts are rich in the rare
+    // bytes).  Runs of 64..300 identical "boring" calls (the same pure-ASCII objects, the same arguments, nothing to cut) are followed
+    // directly by same-sized texts at the same addresses with the separator / a delimiter / a two-byte character in their last bytes.
+    {
+        // a thorough run has more of these cases, not longer ones (a case stays a few seconds of CPU)
+        const uint64_t soak_cases = vrt::thorough() ? 128 : 16;
+        const size_t tok_iters = static_cast<size_t>(vrt::tier_count(150000, 200000)), rep_iters = static_cast<size_t>(vrt::tier_count(75000, 100000));
+        vrt::require("soak.tokenize.calls", soak_cases * tok_iters * 9 / 10);
+        vrt::require("soak.split.calls", soak_cases * tok_iters / 2 * 9 / 10);
+        vrt::require("soak.replace.calls", soak_cases * rep_iters * 9 / 10);
+        vrt::require("soak.tokenize.delimiter_sets_with_a_rare_byte", soak_cases * 10);
+        if (tok_iters >= 100000) vrt::require("soak.tokenize.rare_byte_out_of_all_sets_for_65535_calls_and_in_the_text", soak_cases);
+        vrt::require("soak.separators_with_a_rare_byte", soak_cases * 10);
+        vrt::require("soak.boring_runs", soak_cases * (tok_iters + rep_iters) / 6000);
+        auto soak = [&](Rng &r, bool replace_phase) {
+            const size_t iters = replace_phase ? rep_iters : tok_iters;
+            static const char core[] = "abcdefgh";
+            static const char rare_pool[] = "0123456789#%";                       // 12 bytes that no core set contains
+            static const char *const core_sets[] = {" ", " \t", ",;", ", ", ";", " ,;\t", "\t"};
+            std::optional<vrt::Box<ST::string>> st, tk;                           // the text of split / replace; the (shorter) one of tokenize
+            S h, ht, d, sep, to;
+            unsigned sform = SF_STR, rform = RF_STR;
+            size_t max = SMAX;
+            bool ci = false, dflt = false;
+            uint64_t n_tok = 0, n_split = 0, n_replace = 0;
+            size_t boring_left = 0;
+            long last_in_set[256];                                                // number of the last tokenize call whose set held the byte
+            for (long &x : last_in_set) x = -1;
+            long tok_call = 0;
+            auto run_ops = [&](size_t it) {
+                if (replace_phase) { replace_case(*st, h, sep, to, ci, rform); ++n_replace; return; }
+                tokenize_case(*tk, ht, dflt ? nullptr : &d);
+                ++n_tok;
+                for (unsigned char ch : dflt ? S(" \t\r\n") : d) last_in_set[ch] = tok_call;
+                for (const char *p = rare_pool; *p; ++p)
+                    if (last_in_set[static_cast<unsigned char>(*p)] >= 0 && tok_call - last_in_set[static_cast<unsigned char>(*p)] == 65535 && ht.find(*p) != S::npos)
+                        vrt::count("soak.tokenize.rare_byte_out_of_all_sets_for_65535_calls_and_in_the_text");
+                ++tok_call;
+                if (it % 2 == 0) { split_case(*st, h, sep, max, ci, sform); ++n_split; }
+            };
+            auto rebuild_at_same_address = [&](std::optional<vrt::Box<ST::string>> &o, const S &text) {
+                vrt::placement_force_parks() = 4;
+                o.reset();
+                o.emplace(vrt::mk(text));
+                vrt::placement_force_parks() = 0;
+            };
+            for (size_t it = 0; it < iters; ++it) {
+                if (boring_left > 0) {
+                    if (--boring_left > 0) { run_ops(it); continue; }
+                    // the call right after the run: same sizes, same addresses, same arguments - and something in the last few bytes
+                    const size_t n = h.size(), nt = ht.size(), L = sep.size();
+                    const unsigned what = static_cast<unsigned>(1 + r.below(15));
+                    const S set = dflt ? S(" \t\r\n") : d;
+                    if (what & 1) h.replace(n - L - r.below(7), L, sep);
+                    if (what & 2) { const size_t t = n - 2 - r.below(6); h[t] = '\xc3'; h[t + 1] = '\xa9'; const size_t u = nt - 2 - r.below(6); ht[u] = '\xc3'; ht[u + 1] = '\xa9'; }
+                    if (what & 4) { ht[nt - 1] = set[r.below(set.size())]; if (r.chance(1, 2)) ht[0] = set[r.below(set.size())]; }
+                    if (what & 8) { h.replace(r.below(3), L, sep); ht[nt - 2 - r.below(6)] = set[r.below(set.size())]; }
+                    rebuild_at_same_address(st, h);
+                    if (!replace_phase) rebuild_at_same_address(tk, ht);
+                    run_ops(it);
+                    vrt::count("soak.boring_runs");
+                    continue;
+                }
+                const bool boring = r.chance(1, replace_phase ? 300 : 500);
+                // tokenize: a core set, rarely (early in the case more often) with a rare byte in it
+                const bool rare_delim = !boring && r.chance(1, it < 3000 ? 150 : 20000);
+                dflt = !rare_delim && r.chance(1, 10);
+                d = r.pick(core_sets);
+                if (rare_delim) {
+                    const char c = rare_pool[r.below(12)];
+                    if (r.chance(1, 2)) d = S(1, c); else d.insert(r.below(d.size() + 1), 1, c);
+                    if (!replace_phase) vrt::count("soak.tokenize.delimiter_sets_with_a_rare_byte");
+                }
+                // split / replace: separators over the core letters (or one core delimiter), rarely a long one with a rare byte
+                const bool rare_sep = !boring && r.chance(1, it < 3000 ? 300 : 3000);
+                const size_t L = rare_sep ? 12 + r.below(19) : r.chance(1, 3) ? 1 : 2 + r.below(10);
+                sep.clear();
+                if (L == 1 && r.chance(1, 2)) sep = S(1, " ,;\t"[r.below(4)]);
+                else for (size_t k = 0; k < L; ++k) sep += core[r.below(8)];
+                if (rare_sep) { sep[r.below(L)] = rare_pool[r.below(12)]; vrt::count("soak.separators_with_a_rare_byte"); }
+                ci = r.chance(1, 5);
+                sform = 1u << ((it / 2) % 4);
+                if (sform == SF_CHAR && L != 1) sform = SF_CSTR;
+                static const unsigned rforms[] = {RF_STR, RF_CSTR, RF_STR_CSTR, RF_CSTR_STR};
+                rform = rforms[it % 4];
+                max = r.chance(3, 4) ? SMAX : r.below(4);
+                switch (r.below(4)) {
+                case 0: to.clear(); break;
+                case 1: to = S(L, '#'); break;
+                case 2: to = sep + sep; break;
+                default: to = gen::bytes_over(r, 1 + r.below(20), "#-+"); break;
+                }
+                const size_t hlen = 40 + L + (r.chance(1, 8) ? r.below(260) : r.below(100));
+                h.clear();
+                if (boring) {
+                    for (size_t k = 0; k < hlen; ++k) h += "mnopqrst"[r.below(8)];
+                    boring_left = 64 + r.below(237);
+                } else {
+                    while (h.size() < hlen) {
+                        const unsigned v = static_cast<unsigned>(r.below(100));
+                        if (v < 38) h += rare_pool[r.below(12)];
+                        else if (v < 80) h += core[r.below(8)];
+                        else if (v < 95 || h.size() + 2 > hlen) h += " ,;\t"[r.below(4)];
+                        else h += "\xc3\xa9";
+                    }
+                }
+                // tokenize gets the first 16..64 bytes (whole characters) as a text of its own
+                ht = h.substr(0, 16 + r.below(49));
+                if (static_cast<unsigned char>(ht[ht.size() - 1]) == 0xC3) ht[ht.size() - 1] = 'x';
+                if (!boring) {
+                    auto put = [&](size_t at, const S &piece) {
+                        // keep two-byte characters whole around the piece
+                        if (at > 0 && static_cast<unsigned char>(h[at - 1]) == 0xC3) --at;
+                        for (size_t k = 0; k < piece.size(); ++k) h[at + k] = piece[k];
+                        if (at + piece.size() < h.size() && static_cast<unsigned char>(h[at + piece.size()]) == 0xA9) h[at + piece.size()] = 'x';
+                    };
+                    const unsigned shape = static_cast<unsigned>(r.below(8));
+                    const size_t at = r.below(hlen - L + 1);
+                    if (shape != 0) put(at, ci && r.chance(1, 2) ? ref::uppered(sep) : sep);
+                    if (shape == 1) h[at + r.below(L)] = '!';                                          // near-miss only
+                    if (shape == 2 && at > L + 2) put(r.below(at - L), sep);                           // an earlier occurrence as well
+                    if (shape == 3 && at + 2 * L + 2 < hlen) put(at + L + r.below(hlen - at - 2 * L), sep);
+                    if (shape == 4 && at + 2 * L <= hlen) put(at + L, sep);                            // two in a row
+                }
+                st.reset();
+                st.emplace(vrt::mk(h));
+                if (!replace_phase) { tk.reset(); tk.emplace(vrt::mk(ht)); }
+                run_ops(it);
+            }
+            st.reset();
+            tk.reset();
+            vrt::count("soak.tokenize.calls", n_tok);
+            vrt::count("soak.split.calls", n_split);
+            vrt::count("soak.replace.calls", n_replace);
+            vrt::distinct(vrt::fnv_u64(r.next(), 97));
+            const char *cls = replace_phase ? "soak_replace" : "soak";
+            if (vrt::want_sample(cls))
+                vrt::sample(cls, replace_phase ? sfmt("%zu consecutive replace calls in one process; last: text %s from=%s to=%s", iters, scale::brief(h).c_str(), show(sep).c_str(), show(to).c_str())
+                                               : sfmt("%zu consecutive tokenize calls in one process, a split call after every other one; last: text %s delims=%s, text %s sep=%s",
+                                                      iters, show(ht).c_str(), show(d).c_str(), scale::brief(h).c_str(), show(sep).c_str()));
+        };
+        vrt::phase("soak", soak_cases, [&](uint64_t, Rng &r) { soak(r, false); });
+        vrt::phase("soak_replace", soak_cases, [&](uint64_t, Rng &r) { soak(r, true); });
+    }
+
+    // ---- align: separators of 8..250 bytes handed to split as const char* / const char8_t* at every start address modulo 16, in both case
+    // modes, on texts holding NEAR-MISSES: copies of the separator that differ from it at exactly one index j (every j in turn) by more
+    // than letter case, by letter case only, or by letter case at j and by more than case further on - in front of and behind real
+    // occurrences, each at an address congruent or not congruent to the separator's address modulo 8.  The same bytes also serve as
+    // a delimiter set for tokenize at that address.
+    {
+        const double sc = std::min(1.0, vrt::opt().scale);
+        vrt::require("align.texts", static_cast<uint64_t>(12000 * sc));
+        vrt::require("align.near_miss_congruent_mod_8", static_cast<uint64_t>(5000 * sc));
+        vrt::require("align.near_miss_not_congruent_mod_8", static_cast<uint64_t>(5000 * sc));
+        vrt::require("align.separator_not_8_byte_aligned", static_cast<uint64_t>(8000 * sc));
+        vrt::require("align.difference_by_case_in_first_8_minus_addr_mod_8_bytes", static_cast<uint64_t>(600 * sc));
+        vrt::require("align.difference_in_the_7_bytes_before_last_multiple_of_8", static_cast<uint64_t>(600 * sc));
+        static const size_t lens[] = {8, 9, 12, 15, 16, 17, 20, 23, 24, 25, 31, 32, 33, 36, 39, 40, 41, 47, 48, 49, 56, 63, 64, 65, 100, 128, 131, 250};
+        const size_t NL = sizeof(lens) / sizeof(lens[0]);
+        vrt::phase("align", vrt::tier_count(16 * NL, 16 * NL * 20), [&](uint64_t i, Rng &r) {
+            const uint64_t g = (i * 7919) % (16 * NL);          // walks the whole grid alignment x length, in an order that a short run samples evenly
+            const unsigned al = static_cast<unsigned>(g % 16);
+            const size_t n = lens[g / 16];
+            static const char letters[] = "abcdefghijklmnopqrstuvwxyzABCDEFGHIJKLMNOPQRSTUVWXYZ";
+            S sep(n, '\0');
+            for (auto &ch : sep) ch = r.chance(1, 8) ? "-_#+"[r.below(4)] : letters[r.below(52)];
+            static const char *const bgs[] = {"0123456789", " .,;", "\xe9\xeb", "@[`{", "0"};
+            const S bg = r.pick(bgs);
+            const bool ascii_bg = !has_high(bg);
+            Placed held(n, al);
+            held.write(sep);
+            const uintptr_t sa = reinterpret_cast<uintptr_t>(held.p);
+            // the index that differs: every one for separators up to 64 bytes; for longer ones the first and the last 17, those around
+            // the last multiple of 8 and a dozen others
+            std::vector<size_t> js;
+            for (size_t j = 0; j < n; ++j)
+                if (n <= 64 || j < 17 || j + 17 >= n || j + 9 >= 8 * (n / 8)) js.push_back(j);
+            for (int k = 0; n > 64 && k < 12; ++k) js.push_back(17 + r.below(n - 34));
+            for (size_t j : js) {
+                for (unsigned kind = 0; kind < NM_KINDS; ++kind) {
+                    S m1, m2;
+                    const bool mixed = r.chance(1, 2);
+                    if (!near_miss(r, sep, j, kind, mixed, m1) || !near_miss(r, sep, j, kind, mixed, m2)) { vrt::count("align.index_cannot_differ_that_way"); continue; }
+                    const unsigned w1 = (al + (r.chance(1, 2) ? 0 : 1 + r.below(7))) % 8, w2 = (al + (r.chance(1, 2) ? 0 : 1 + r.below(7))) % 8;
+                    const size_t o1 = 8 * r.below(3) + w1;
+                    S h = gen::bytes_over(r, o1, bg);
+                    h += m1;
+                    h += gen::bytes_over(r, r.below(12), bg);
+                    const unsigned occ = static_cast<unsigned>(r.below(3));          // no real occurrence / exact / in another case
+                    if (occ) h += occ == 1 ? sep : random_case(r, sep);
+                    h += gen::bytes_over(r, r.below(12), bg);
+                    while (h.size() % 8 != w2) h += bg[r.below(bg.size())];
+                    const size_t o2 = h.size();
+                    h += m2;
+                    h += gen::bytes_over(r, r.below(10), bg);
+                    if (r.chance(1, 3)) { h += sep; h += gen::bytes_over(r, r.below(6), bg); }
+                    vrt::Box<ST::string> st(vrt::mk(h));
+                    const uintptr_t hb = reinterpret_cast<uintptr_t>(st->c_str());
+                    vrt::count((hb + o1 - sa) % 8 == 0 ? "align.near_miss_congruent_mod_8" : "align.near_miss_not_congruent_mod_8");
+                    vrt::count((hb + o2 - sa) % 8 == 0 ? "align.near_miss_congruent_mod_8" : "align.near_miss_not_congruent_mod_8");
+                    split_case(st, h, sep, SMAX, false, SF_ALL, held.p);
+                    split_case(st, h, sep, SMAX, true, SF_ALL, held.p);
+                    split_case(st, h, sep, 1 + r.below(2), r.chance(1, 2), SF_CSTR | SF_CHAR8, held.p);
+                    if (ascii_bg && r.chance(1, 4)) replace_case(st, h, sep, r.chance(1, 2) ? S("#") : sep + "+", r.chance(1, 2), RF_STR | RF_CSTR, held.p);
+                    vrt::count("align.texts");
+                    if (sa % 8) vrt::count("align.separator_not_8_byte_aligned");
+                    if (kind != NM_HARD && sa % 8 && j < 8 - sa % 8) vrt::count("align.difference_by_case_in_first_8_minus_addr_mod_8_bytes");
+                    if (kind == NM_HARD && j < 8 * (n / 8) && j + 7 >= 8 * (n / 8)) vrt::count("align.difference_in_the_7_bytes_before_last_multiple_of_8");
+                    if (vrt::want_sample("align") && kind == NM_HARD && j + 2 == 8 * (n / 8) && al % 8)
+                        vrt::sample("align", sfmt("text=%s sep=%s at an address = %u mod 16: near-misses at offsets %zu and %zu differ from it at index %zu only",
+                                                  show(h).c_str(), show(sep).c_str(), al, o1, o2, j));
+                }
+            }
+            // the same bytes as the delimiter set of tokenize at that address: tokens that begin / end with a byte that is no delimiter
+            // but the other case of one, or a neighbour of one
+            for (int rep = 0; rep < 8; ++rep) {
+                auto outsider = [&]() {
+                    for (int tries = 0; tries < 32; ++tries) {
+                        const char m = sep[r.below(n)], c = r.chance(1, 2) ? other_case(m) : different_byte(r, m);
+                        if (!ref::in_set(sep, c)) return c;
+                    }
+                    return '0';
+                };
+                S s = gen::bytes_over(r, r.below(12), sep);
+                for (int t = 0, nt = 1 + static_cast<int>(r.below(5)); t < nt; ++t) {
+                    s += outsider();
+                    s += gen::bytes_over(r, r.below(8), bg);
+                    s += outsider();
+                    s += gen::bytes_over(r, 1 + r.below(12), sep);
+                }
+                vrt::Box<ST::string> st(vrt::mk(s));
+                tokenize_case(st, s, &sep, held.p);
+                vrt::count("align.tokenize_texts");
+            }
+            vrt::count("align.cases");
         });
     }
 
